@@ -120,6 +120,7 @@ def gen_device(rng: random.Random, xy=False, focus=None):
 INT_IDS_RATE = 0.0
 SCALAR_TARGET_RATE = 0.0
 SHORTHAND_RATE = 0.0
+UNBUILDABLE_RATE = 0.0
 
 
 def gen_register(rng: random.Random):
@@ -462,6 +463,13 @@ def gen_ops(rng: random.Random, case, n_ops: int, invalid_rate: float, query_rat
                 pr = 3
             big = rng.random() < (0.25 if focus == "limits" else 0.05)
             pl = pulse_for(obj, big=big)
+            if UNBUILDABLE_RATE and rng.random() < UNBUILDABLE_RATE * (3 if focus == "limits" else 1):
+                # an amplitude that is negative on part of the pulse: the Pulse itself must refuse it
+                # (such cases are judged by the oracles only: no pulse reaches the model)
+                d_ = wf_dur(pl["amp"])
+                pl = dict(pl, amp=rng.choice([dict(k="ramp", d=d_, a=-2.0, b=1.0), dict(k="ramp", d=d_, a=0.5, b=-0.25),
+                                              dict(k="custom", samples=[1.0, -0.5] + [0.25] * max(0, d_ - 2))]), unbuildable=True)
+                pl.pop("via", None)
             if pr != 3 and rng.random() < (0.35 if focus == "conflict" else 0.12):
                 # the estimate for exactly the add that follows (C03)
                 emit(dict(op="estimate", pulse=pl, channel=name, protocol=pr))
@@ -470,6 +478,10 @@ def gen_ops(rng: random.Random, case, n_ops: int, invalid_rate: float, query_rat
             d = gen_duration(rng, spec)
             if rng.random() < invalid_rate:
                 d = rng.choice([0, -4, 1])
+            elif UNBUILDABLE_RATE and rng.random() < UNBUILDABLE_RATE:
+                # "castable to an int": a float duration is accepted and truncated
+                # (oracle-only cases: the model's durations are integers)
+                d = d + rng.choice([0.4, 0.5, 0.75])
             emit(dict(op="delay", duration=d, channel=name, at_rest=rng.random() < 0.4))
         elif kind == "target":
             if local or rng.random() < 0.08:
